@@ -100,18 +100,19 @@ WellFormed(defs) == \A i \in 1..Len(defs) : WFDef(defs[i])
 \*   split    - a later definition overwrote some code of the winner's range below `code`
 \*   coalesce - another definition with an equal multi-unit/array target touches or overlaps the winner
 \*   plain    - neither
+LeSucc(a, b) == a <= b \/ (b # 2147483647 /\ a = b + 1)       \* a <= b + 1 without leaving TLC's integers
 NormT(t) == IF t.k = "array" /\ Len(t.a) = 1 THEN Str(t.a[1]) ELSE t
 KindT(t) == LET n == NormT(t) IN IF n.k = "array" THEN "array" ELSE IF Len(n.u) = 1 THEN "single" ELSE "multi"
-Class(defs, len, code) ==
-    LET w == WinnerIdx(defs, len, code)
-        W == defs[w]
+ClassAt(defs, w, len, code) ==          \* w = WinnerIdx(defs, len, code)
+    LET W == defs[w]
         laterBelow == \E j \in (w + 1)..Len(defs) :
-                         defs[j].len = len /\ defs[j].lo <= code - 1 /\ defs[j].hi >= W.lo
+                         defs[j].len = len /\ defs[j].lo < code /\ defs[j].hi >= W.lo
         eqTouch == /\ KindT(W.t) # "single"
                    /\ \E j \in 1..Len(defs) : /\ j # w /\ defs[j].len = len
+                                              /\ LeSucc(defs[j].lo, W.hi) /\ LeSucc(W.lo, defs[j].hi)
                                               /\ NormT(defs[j].t) = NormT(W.t)
-                                              /\ defs[j].lo <= W.hi + 1 /\ W.lo <= defs[j].hi + 1
     IN KindT(W.t) \o (IF laterBelow THEN ".split" ELSE IF eqTouch THEN ".coalesce" ELSE ".plain")
+Class(defs, len, code) == ClassAt(defs, WinnerIdx(defs, len, code), len, code)
 
 \* The decoded UTF-16 string starts with something a BOM-sniffing decoder takes for a byte order mark:
 \* U+FEFF (ZERO WIDTH NO-BREAK SPACE), U+FFFE, or the bytes EF BB BF (U+EFBB then a unit BFxx).
@@ -120,9 +121,10 @@ BomStart(us) ==
     /\ \/ us[1] = 65279 \/ us[1] = 65534
        \/ (us[1] = 61371 /\ Len(us) >= 2 /\ us[2] \div 256 = 191)
 
-\* class of one decoded code: the text class wins over the interval class
-CaseClass(defs, len, code) ==
-    IF BomStart(Lookup(defs, len, code)) THEN "text.bom" ELSE Class(defs, len, code)
+\* class of one decoded code: interval class, plus the text class when the target looks like a BOM
+CaseClassAt(defs, w, len, code) ==
+    ClassAt(defs, w, len, code) \o (IF BomStart(TargetAt(defs[w], code)) THEN "+text.bom" ELSE "")
+CaseClass(defs, len, code) == CaseClassAt(defs, WinnerIdx(defs, len, code), len, code)
 
 -----------------------------------------------------------------------------
 (* Code bytes (codes of length <= 3 are their numeric value in this part) *)
